@@ -2,6 +2,7 @@
 import itertools
 from fractions import Fraction
 
+import math
 import numpy as np
 
 import gen
@@ -351,4 +352,277 @@ _run_main = run
 def run(ctx):
     _run_main(ctx)
     extras(ctx)
+    ctx.flush()
+
+
+# ---- extras2 (harness extension hx_a): large instances, extreme time steps, containers / dtypes, consecutive calls ---------------------------
+#
+# Not demanded (see NOTES.md): significant durations of NARROW integer-dtype records (calc_sig_dur_vals forms motion ** 2, calc_sig_dur the Arias
+# series, in the record's dtype: the squares wrap and the reported times are wrong on the pinned tree -- suspected defect, no oracle; bracketed
+# durations only take |a| and are right, demanded); list / tuple records for the array variant (TypeError: `motion ** 2`); the deprecated
+# AccSignal.generate_duration_stats (AttributeError: np.trapz is absent from the pinned NumPy).
+
+def _x2_first_last(mask):
+    idx = np.nonzero(mask)[0]
+    return (int(idx[0]), int(idx[-1])) if len(idx) else None
+
+
+def _x2_idx(res, dt):
+    """(start, end) times -> sample indices (dyadic dt: exact)"""
+    return (float(res[1][0]) / dt, float(res[1][1]) / dt)
+
+
+def x2_large(ctx):
+    """LARGE instances (6 000 - 60 000 samples): the crossing definition evaluated independently -- in exact integer arithmetic for the running
+    sum of squares of whole-number records with dyadic fractions, with NumPy on the implementation's own cumulative series for Arias and for
+    user measures (monotone and NOT monotone) -- plus the relations of the property (amplitude scaling, zero prefix, widening; threshold
+    monotonicity and joint scaling for the bracketed duration)"""
+    import eqsig
+    from eqsig import im
+    rng = ctx.rng
+    quick = ctx.tier == 'quick'
+    for n in ([6000, 25000, 60000] if quick else [6000, 25000, 60000, 5000, 5001, 8192, 16385, 100000]):
+        dt = gen.dyadic_dt(rng)
+        env = np.exp(-((np.arange(n) - n * rng.uniform(0.3, 0.6)) / (n / 6)) ** 2)
+        a = np.round(gen.noise_record(rng, n) * env * 40)                       # whole numbers, |a| up to ~150, many zeros in the tails
+        if not np.any(a):
+            a[n // 2] = 5.0
+        s, e = rng.choice([(Fraction(1, 16), Fraction(15, 16)), (Fraction(1, 8), Fraction(3, 4)), (Fraction(3, 64), Fraction(61, 64)), (Fraction(1, 4), Fraction(1, 2))])
+        tie_no = getattr(ctx, '_x2_tie_no', rng.randrange(3))
+        ctx._x2_tie_no = tie_no + 1
+        tie = ['start-tie', 'end-tie', 'none'][tie_no % 3]
+        if tie != 'none':
+            # a cumulative value lies EXACTLY on a fraction of the total (the comparison is strict): a few samples are appended / prepended so that
+            # c[i0] == total/16 (start) or c[i1] == 15 total/16 (end); everything stays integral, so the implementation's products are exact too
+            s, e = Fraction(1, 16), Fraction(15, 16)
+            ci0 = np.cumsum(a.astype(np.int64) ** 2)
+            tot0 = int(ci0[-1])
+            if tie == 'start-tie':
+                i0 = int(np.argmax(ci0 * 16 >= tot0))
+                deficit = 16 * int(ci0[i0]) - tot0
+            else:
+                i1 = int(np.nonzero(ci0 * 16 <= 15 * tot0)[0][-1])
+                deficit = 15 * (tot0 - int(ci0[i1])) - int(ci0[i1])
+            extra = []
+            while deficit > 0:
+                r = min(int(math.isqrt(deficit)), 3000)
+                extra.append(float(r) * rng.choice([-1.0, 1.0]))
+                deficit -= r * r
+            a = np.concatenate([a, extra]) if tie == 'start-tie' else np.concatenate([extra, a])
+            n = len(a)
+            env = np.concatenate([env, np.zeros(n - len(env))])
+        ctx.hist('large/exact ' + tie)
+        desc = {'a': f'round(40 x gaussian noise x gaussian envelope), n={n} (seed-derived)' + ('' if tie == 'none' else f', {len(extra)} samples added for an exact {tie}'),
+                'dt': dt, 'start': float(s), 'end': float(e), 'head': a[:6], 'tail': a[-6:]}
+        ctx.hist(f'large/n={n}')
+        ctx.count_case(('x2-large', n, dt, s, e, a[:64].tobytes()), True, sample={'fn': 'durations (large instance)', 'n': n, 'dt': dt})
+        snap = a.copy()
+        # (a) running sum of squares, exact integers
+        ci = np.cumsum(a.astype(np.int64) ** 2)
+        tot = int(ci[-1])
+        want = _x2_first_last((ci * s.denominator > s.numerator * tot) & (ci * e.denominator < e.numerator * tot))
+        rv = call_impl(im.calc_sig_dur_vals, a, dt, start=float(s), end=float(e), se=True)
+        if want is None:
+            ctx.oracle('C10.a [sum-of-squares] IndexError iff no sample lies strictly between the fractions [large instance]', rv == ('err', 'IndexError'), desc, detail=rv)
+        else:
+            ok = rv[0] == 'ok' and _x2_idx(rv, dt) == (float(want[0]), float(want[1]))
+            ctx.oracle('C10.a [sum-of-squares] (start, end) == times of first/last sample strictly between the fractions of the total [large instance]', ok, desc,
+                       detail={'got': rv, 'want_indices': want})
+            if rv[0] == 'ok':
+                ctx.oracle('C10.b [sum-of-squares] 0 <= start <= end <= duration [large instance]', 0 <= rv[1][0] <= rv[1][1] <= (n - 1) * dt, desc)
+                d = call_impl(im.calc_sig_dur_vals, a, dt, start=float(s), end=float(e))
+                ctx.oracle('C10.a [sum-of-squares] se=False returns end - start [large instance]', d[0] == 'ok' and float(d[1]) == float(rv[1][1]) - float(rv[1][0]), desc)
+                al = rng.choice([-2.0, 0.5, 4.0])
+                r2 = call_impl(im.calc_sig_dur_vals, al * a, dt, start=float(s), end=float(e), se=True)
+                ctx.oracle('C10.c [sum-of-squares] unchanged by amplitude scaling [large instance]', r2[0] == 'ok' and tuple(map(float, r2[1])) == tuple(map(float, rv[1])), {**desc, 'alpha': al})
+                k = rng.choice([1, 7, 4096, 5000])
+                r3 = call_impl(im.calc_sig_dur_vals, np.concatenate([np.zeros(k), a]), dt, start=float(s), end=float(e), se=True)
+                ctx.oracle('C10.d [sum-of-squares] start and end shift by k*dt when k zeros are prepended [large instance]',
+                           r3[0] == 'ok' and _x2_idx(r3, dt) == (want[0] + float(k), want[1] + float(k)), {**desc, 'k': k}, detail={'orig': rv, 'prepended': r3},
+                           facts={'measure': 'sum-of-squares', 'clause': 'zero-prefix', 'a0_nonzero': bool(a[0] != 0)})
+                r4 = call_impl(im.calc_sig_dur_vals, a, dt, start=float(s / 2), end=float((e + 1) / 2), se=True)
+                ctx.oracle('C10.e [sum-of-squares] widening the fraction interval never shortens the duration [large instance]',
+                           r4[0] == 'ok' and r4[1][0] <= rv[1][0] and rv[1][1] <= r4[1][1], desc, detail={'orig': rv, 'wide': r4})
+        # (b) Arias (noise record: no exact ties) and user measures, on the implementation's own cumulative series
+        b = gen.noise_record(rng, n) * env
+        asig = eqsig.AccSignal(b, dt) if rng.random() < 0.5 else eqsig.AccSignal(b[:5], dt)
+        if asig.npts != n:
+            _ = asig.velocity, asig.pga
+            asig.reset_values(b)
+        sf, ef = rng.choice([(0.05, 0.95), (0.05, 0.75), (0.1, 0.9), (0.25, 0.5)])
+        descb = {'a': f'gaussian noise x gaussian envelope, n={n} (seed-derived)', 'dt': dt, 'start': sf, 'end': ef, 'head': b[:4]}
+        measures = [('Arias', None, im.calc_arias_intensity(asig)), ('custom measure calc_cav', im.calc_cav, im.calc_cav(asig)),
+                    ('custom measure, not monotone (running sum of a)', lambda s_: np.cumsum(s_.values) + 3.0 * np.max(np.abs(np.cumsum(s_.values))),
+                     np.cumsum(b) + 3.0 * np.max(np.abs(np.cumsum(b))))]
+        for mname, fn, cum in measures:
+            cum = np.asarray(cum)
+            wantb = _x2_first_last((cum > sf * cum[-1]) & (cum < ef * cum[-1]))
+            r = call_impl(im.calc_sig_dur, asig, start=sf, end=ef, im=fn, se=True)
+            if wantb is None:
+                ok = r == ('err', 'IndexError')
+            else:
+                ok = r[0] == 'ok' and _x2_idx(r, dt) == (float(wantb[0]), float(wantb[1]))
+            ctx.hist('large/' + mname.split(',')[0])
+            ctx.oracle(f'C10.a [{mname}] first/last sample at which the cumulative measure lies strictly between the fractions of its final value [large instance]', ok, descb,
+                       detail={'got': r, 'want_indices': wantb})
+            if mname == 'Arias' and r[0] == 'ok':
+                r2 = call_impl(im.calc_sig_dur, eqsig.AccSignal(-4.0 * b, dt), start=sf, end=ef, se=True)
+                ctx.oracle('C10.c [Arias] unchanged by amplitude scaling [large instance]', r2[0] == 'ok' and tuple(map(float, r2[1])) == tuple(map(float, r[1])), {**descb, 'alpha': -4.0})
+                ctx.oracle('C10.b [Arias] 0 <= start <= end <= duration [large instance]', 0 <= r[1][0] <= r[1][1] <= (n - 1) * dt, descb)
+        # (c) bracketed duration
+        absb = np.abs(b)
+        thr = float(rng.choice([np.sort(absb)[int(0.999 * n)], np.sort(absb)[n // 2], absb.max(), absb.max() * 0.999, 0.0, absb[rng.randrange(n)]]))
+        wl = _x2_first_last(absb > thr)
+        r_se, r_d = call_impl(im.calc_brac_dur, asig, thr, se=True), call_impl(im.calc_brac_dur, asig, thr)
+        okb = (r_se == ('ok', (None, None)) and r_d[0] == 'ok' and r_d[1] == 0) if wl is None else \
+            (r_se[0] == 'ok' and r_d[0] == 'ok' and None not in r_se[1] and _x2_idx(r_se, dt) == (float(wl[0]), float(wl[1])) and float(r_d[1]) == (wl[1] - wl[0]) * dt)
+        ctx.oracle('C10.f bracketed (start, end) == times of first/last sample with |a| > threshold, duration == their difference (0 / (None, None) when none) [large instance]', okb,
+                   {**descb, 'threshold': thr}, detail={'got': [r_se, r_d], 'want_indices': wl})
+        if r_d[0] == 'ok':
+            thr2 = thr * 1.5 + 0.01
+            ctx.oracle('C10.f non-increasing in the threshold [large instance]', float(im.calc_brac_dur(asig, thr2)) <= float(r_d[1]), {**descb, 'threshold': thr, 'threshold2': thr2})
+            ctx.oracle('C10.f unchanged when record and threshold are scaled together [large instance]', float(im.calc_brac_dur(eqsig.AccSignal(8.0 * b, dt), 8.0 * thr)) == float(r_d[1]),
+                       {**descb, 'threshold': thr, 'alpha': 8.0})
+        ctx.oracle('C10 the records handed to the duration functions are unchanged [large instance]', bool(np.array_equal(a, snap) and np.array_equal(np.asarray(asig.values), b)), desc)
+
+
+def x2_small(ctx):
+    """extreme time steps (the property quantifies over all dt: start and end are index x dt, so they scale exactly with a power-of-two
+    rescaling of dt, also by 2^+-300); containers / dtypes; consecutive calls on ONE object that share some but not all arguments"""
+    import eqsig
+    from eqsig import im
+    rng = ctx.rng
+    pairs = [(0.05, 0.95), (0.05, 0.75), (0.25, 0.75), (0.125, 0.5), (0.25, 0.95), (0.05, 0.5)]
+    for it in range(30 if ctx.tier == 'quick' else 300):
+        n = gen.log_int(rng, 3, 120)
+        dt = gen.dyadic_dt(rng)
+        whole = it % 2 == 0
+        a = gen.int_record(rng, n) if whole else gen.dyadic_record(rng, n)
+        if len(set(np.abs(a).tolist())) < 2:
+            continue
+        s, e = rng.choice(pairs)
+        thr = float(rng.choice(sorted(set(np.abs(a).tolist())))) * rng.choice([0.5, 1.0, 0.999])
+        inputs = {'a': a, 'dt': dt, 'start': s, 'end': e, 'threshold': thr}
+        ctx.count_case(('x2-small', a.tobytes(), dt, s, e, thr), True)
+        o0 = eqsig.AccSignal(a, dt)
+        base = {'vals': call_impl(im.calc_sig_dur_vals, a, dt, start=s, end=e, se=True), 'arias': call_impl(im.calc_sig_dur, o0, start=s, end=e, se=True),
+                'brac': call_impl(im.calc_brac_dur, o0, thr, se=True)}
+
+        def times(r, k=1.0):
+            return r if r[0] != 'ok' else ('ok', tuple(None if x is None else float(x) * k for x in r[1]))
+        # (a) extreme time steps
+        for j in (-300, 300, -40, 40):
+            k = 2.0 ** j
+            ctx.hist(f'extreme-dt/2^{j}')
+            o = ctx.aged(eqsig.AccSignal, a, dt * k)
+            got = {'vals': call_impl(im.calc_sig_dur_vals, a, dt * k, start=s, end=e, se=True), 'arias': call_impl(im.calc_sig_dur, o, start=s, end=e, se=True),
+                   'brac': call_impl(im.calc_brac_dur, o, thr, se=True)}
+            ok = all(times(got[q]) == times(base[q], k) for q in base)
+            ctx.oracle('C10 start and end are sample index x dt: rescaling the time step by 2^j rescales every duration result by exactly 2^j, also for extreme steps', ok,
+                       {**inputs, 'dt_scale': f'2**{j}'}, detail={'got': got, 'base': base})
+        # (b) containers / dtypes
+        variants = [(lab, c, a) for lab, c in gen.container_variants(a)]
+        if whole:
+            variants += gen.narrow_int_variants(a)
+        for lab, c, fl in variants:
+            ctx.hist('record container=' + lab)
+            narrow = fl is not a
+            # (float32 records: the threshold products are formed in single precision, which may legitimately decide an exact tie differently)
+            if isinstance(c, np.ndarray) and not narrow and lab != 'float32':
+                r = call_impl(im.calc_sig_dur_vals, c, dt, start=s, end=e, se=True)
+                ctx.oracle('C10 calc_sig_dur_vals of an int32 / int64 / strided record == that of the same numbers in float64', times(r) == times(base['vals']),
+                           {**inputs, 'container': lab}, detail=(r, base['vals']))
+            oc = call_impl(eqsig.AccSignal, c, dt)
+            if oc[0] != 'ok':
+                ctx.oracle('an AccSignal can be built from a list / tuple / integer / float32 / strided record', False, {**inputs, 'container': lab}, detail=oc)
+                continue
+            if not narrow and lab != 'float32':
+                r = call_impl(im.calc_sig_dur, oc[1], start=s, end=e, se=True)
+                ctx.oracle('C10 calc_sig_dur of an AccSignal built from a list / tuple / int32 / int64 / strided record == that of the same numbers in float64', times(r) == times(base['arias']),
+                           {**inputs, 'container': lab}, detail=(r, base['arias']))
+            t2 = float(np.sort(np.abs(fl))[len(fl) // 2]) * rng.choice([1.0, 0.999])
+            r, w = call_impl(im.calc_brac_dur, oc[1], t2, se=True), call_impl(im.calc_brac_dur, eqsig.AccSignal(fl, dt), t2, se=True)
+            r1, w1 = call_impl(im.calc_brac_dur, oc[1], t2), call_impl(im.calc_brac_dur, eqsig.AccSignal(fl, dt), t2)
+            ctx.oracle('C10.f calc_brac_dur of an AccSignal built from any container / integer dtype (any width) == that of the same numbers in float64', times(r) == times(w) and
+                       r1[0] == w1[0] == 'ok' and float(r1[1]) == float(w1[1]), {'a': fl, 'dt': dt, 'threshold': t2, 'container': lab}, detail=(r, w))
+        # (c) consecutive calls on one object sharing some but not all arguments (exact repeats included)
+        o = ctx.aged(eqsig.AccSignal, a, dt)
+        cs, ce, cthr, cse = rng.choice([0.0625, 0.125, 0.25]), rng.choice([0.5, 0.75, 0.9375]), thr, True
+        hist = []
+        fa, fdt = [fr(x) for x in a], fr(dt)
+        for step in range(rng.randint(3, 6)):
+            ch = rng.choice(['same', 'start', 'end', 'se', 'threshold', 'im'])
+            if ch == 'start':
+                cs = rng.choice([x for x in (0.0625, 0.125, 0.25) if x != cs])
+            elif ch == 'end':
+                ce = rng.choice([x for x in (0.5, 0.75, 0.9375) if x != ce])
+            elif ch == 'se':
+                cse = not cse
+            elif ch == 'threshold':
+                cthr = float(rng.choice(sorted(set(np.abs(a).tolist())))) * rng.choice([0.5, 1.0])
+            fn = im.calc_cav if ch == 'im' else None
+            hist.append((ch, cs, ce, cse, cthr))
+            f = eqsig.AccSignal(a, dt)
+            got = (call_impl(im.calc_sig_dur, o, start=cs, end=ce, im=fn, se=cse), call_impl(im.calc_brac_dur, o, cthr, se=cse))
+            want = (call_impl(im.calc_sig_dur, f, start=cs, end=ce, im=fn, se=cse), call_impl(im.calc_brac_dur, f, cthr, se=cse))
+            ctx.hist('consecutive-calls/' + ch)
+            ctx.oracle('C10 consecutive duration calls on one object that share some but not all of (start, end, se, threshold, measure) each return what a fresh object returns', got == want,
+                       {'a': a, 'dt': dt, 'calls (changed, start, end, se, threshold)': hist}, detail={'got': got, 'fresh': want}, facts={'history': [h[0] for h in hist]})
+            # the array variant against the definition itself (dyadic fractions, dyadic-safe record: exact)
+            gv = call_impl(im.calc_sig_dur_vals, a, dt, start=cs, end=ce, se=cse)
+            wv = spec_sigdur(cum_sq(fa), fdt, fr(cs), fr(ce))
+            okv = (gv == ('err', 'IndexError')) if wv is None else (gv[0] == 'ok' and ((fr(gv[1][0]), fr(gv[1][1])) == wv if cse else fr(gv[1]) == wv[1] - wv[0]))
+            ctx.oracle('C10.a [sum-of-squares] consecutive calls that share some but not all of (start, end, se): each returns the times of the first/last sample strictly between ITS fractions',
+                       okv, {'a': a, 'dt': dt, 'calls (changed, start, end, se, threshold)': hist}, detail={'got': gv, 'want': None if wv is None else [float(wv[0]), float(wv[1])]})
+
+
+def extras2(ctx):
+    x2_large(ctx)
+    x2_small(ctx)
+
+
+_run_main2 = run
+
+
+def run(ctx):
+    _run_main2(ctx)
+    extras2(ctx)
+    ctx.flush()
+
+
+# ---- open finding F10-2: arithmetic in the record's own integer dtype (see _narrow_findings.py) -------------------------------------------
+
+import _narrow_findings as _NF  # noqa: E402
+
+
+def _narrow_table():
+    import eqsig
+    from eqsig import im
+    return {'calc_sig_dur_vals': lambda x, dt: im.calc_sig_dur_vals(x, dt, se=True),
+            'calc_sig_dur': lambda x, dt: im.calc_sig_dur(eqsig.AccSignal(x, dt), se=True),
+            'calc_brac_dur': lambda x, dt: im.calc_brac_dur(eqsig.AccSignal(x, dt), float(np.median(np.abs(np.asarray(x, dtype=float)))), se=True)}
+
+
+try:
+    KNOWN_MATCHERS
+except NameError:
+    KNOWN_MATCHERS = {}
+KNOWN_MATCHERS['F10-2'] = _NF.matcher('F10-2')
+_known_witness_prev = globals().get('known_witness')
+
+
+def known_witness(fid):
+    if fid == 'F10-2':
+        from eqsig import im
+        a = np.array([100, -200, 300, 250, -50, 20, 10, -5], dtype=np.int16)
+        return im.calc_sig_dur_vals(a, 0.5, se=True) != im.calc_sig_dur_vals(a.astype(float), 0.5, se=True)
+    return _known_witness_prev(fid) if _known_witness_prev else True
+
+
+_run_main_nf = run
+
+
+def run(ctx):
+    _run_main_nf(ctx)
+    _NF.narrow_oracles(ctx, 'C10', _narrow_table())
     ctx.flush()
